@@ -515,8 +515,126 @@ def gen(rng, n, tier):
     return out
 
 
+E2E_EVIL = ["both", "cl2", "te2", "badname", "evil", "fold", "te10", "badte", "badcl", "lf", "method", "expect", "target"]
+
+
+def gen_body(rng):
+    return rng.bytes(rng.choice([0, 1, 3, 5, 10, 16, 17, 40]), b"abc\r\n0123 :;")
+
+
+def chunked_wire(rng, body, fancy):
+    out, i = b"", 0
+    while i < len(body):
+        n = rng.randint(1, max(1, len(body) - i))
+        size = (b"%x" % n) if not fancy or rng.chance(0.5) else rng.choice([b"%X" % n, b"0%x" % n, b"%x;ext=1" % n, b"%x ;a" % n, b'%x;q="x"' % n])
+        out += size + b"\r\n" + body[i:i + n] + b"\r\n"
+        i += n
+    return out + (rng.choice([b"0\r\n\r\n", b"0\r\n\r\n", b"00\r\n\r\n", b"0;x\r\n\r\n"]) if fancy else b"0\r\n\r\n")
+
+
+def gen_e2e_request(rng, idx):
+    method = rng.weighted([(5, b"GET"), (5, b"POST"), (2, b"HEAD"), (2, b"PUT")])
+    version = b"HTTP/1.1" if rng.chance(0.9) else b"HTTP/1.0"
+    target = b"http://example.com/p%d" % idx
+    hdrs = [b"Host: example.com"]
+    for _ in range(rng.randint(0, 2)):
+        hdrs.append(rng.choice(NAMES[7:]) + b": " + rng.choice(VALUES[:10]))
+    body = b""
+    eol = b"\r\n"
+    kind = rng.weighted([(70, "clean"), (30, "evil")])
+    if kind == "clean":
+        fr = rng.weighted([(3, "none"), (4, "cl"), (4, "te")])
+        if version == b"HTTP/1.0" and fr == "te":
+            fr = "cl"
+        if fr == "cl":
+            content = gen_body(rng)
+            hdrs.append(rng.choice([b"Content-Length", b"content-length"]) + b": " + b"%d" % len(content))
+            body = content
+        elif fr == "te":
+            hdrs.append(b"Transfer-Encoding: " + rng.choice(TE_VALUES[:8]))
+            body = chunked_wire(rng, gen_body(rng), rng.chance(0.4))
+    else:
+        ev = rng.choice(E2E_EVIL)
+        content = gen_body(rng)
+        if ev in ("both", "cl2", "te2", "badname", "evil", "fold"):
+            hdrs += gen_header_lines(rng, ev)
+            body = rng.choice([content, chunked_wire(rng, content, False), b""])
+            if ev in ("evil", "fold", "badname") and rng.chance(0.6):
+                hdrs.append(b"Content-Length: %d" % len(content))
+                body = content
+        elif ev == "te10":
+            version = b"HTTP/1.0"
+            hdrs.append(b"Transfer-Encoding: chunked")
+            body = chunked_wire(rng, content, False)
+        elif ev == "badte":
+            hdrs.append(b"Transfer-Encoding: " + rng.choice(TE_VALUES[8:]))
+            body = chunked_wire(rng, content, False)
+        elif ev == "badcl":
+            hdrs.append(b"Content-Length: " + rng.choice(CL_VALUES[4:]))
+            body = content
+        elif ev == "lf":
+            eol = b"\n"
+            hdrs.append(b"Content-Length: %d" % len(content))
+            body = content
+        elif ev == "method":
+            method = rng.choice([b"G(T", b"GET\x00", b"get", b"G\x7fT", b"M-SEARCH"])
+        elif ev == "expect":
+            hdrs.append(b"Expect: 100-continue")
+            hdrs.append(b"Content-Length: %d" % len(content))
+            body = content
+        elif ev == "target":
+            target = rng.choice([b"http://example.com/a\x01b", b"http://example.com/\xff", b"http://example.com/a\x7f", b"http://example.com"])
+    rng.shuffle(hdrs)
+    return method + b" " + target + b" " + version + eol + b"".join(h + eol for h in hdrs) + eol + body
+
+
+def gen_e2e_response(rng):
+    status = rng.weighted([(20, b"200"), (4, b"204"), (6, b"304"), (4, b"404"), (2, b"500"), (1, b"99"), (1, b"1000"), (2, b"205")])
+    version = b"HTTP/1.1" if rng.chance(0.9) else b"HTTP/1.0"
+    reason = rng.weighted([(8, b" OK"), (3, b""), (3, b" Not Modified"), (1, b" a\rb"), (1, b" \xff")])
+    hdrs = []
+    for _ in range(rng.randint(0, 2)):
+        hdrs.append(rng.choice(NAMES[7:]) + b": " + rng.choice(VALUES[:10]))
+    content = gen_body(rng)
+    body, close = b"", False
+    fr = rng.weighted([(4, "cl"), (4, "te"), (2, "close"), (1, "none0"), (3, "evil")])
+    if fr == "cl":
+        hdrs.append(b"Content-Length: %d" % len(content))
+        body = content
+    elif fr == "te":
+        hdrs.append(b"Transfer-Encoding: " + rng.choice(TE_VALUES[:8]))
+        body = chunked_wire(rng, content, rng.chance(0.4))
+    elif fr == "close":
+        if rng.chance(0.3):
+            hdrs.append(b"Transfer-Encoding: " + rng.choice([b"gzip", b"identity"]))
+        body, close = content, True
+    elif fr == "none0":
+        hdrs.append(b"Content-Length: 0")
+    else:
+        ev = rng.choice(["both", "cl2", "te2", "badname", "evil", "fold", "badte", "badcl"])
+        if ev == "badte":
+            hdrs.append(b"Transfer-Encoding: " + rng.choice(TE_VALUES[8:]))
+        elif ev == "badcl":
+            hdrs.append(b"Content-Length: " + rng.choice(CL_VALUES[4:]))
+        else:
+            hdrs += gen_header_lines(rng, ev)
+            if ev in ("evil", "fold", "badname") and rng.chance(0.6):
+                hdrs.append(b"Content-Length: %d" % len(content))
+        body = rng.choice([content, chunked_wire(rng, content, False), b""])
+        close = rng.chance(0.3)
+    rng.shuffle(hdrs)
+    return {"b": hx(version + b" " + status + reason + b"\r\n" + b"".join(h + b"\r\n" for h in hdrs) + b"\r\n" + body), "close": close}
+
+
+POLICIES = ["pass", "pass", "pass", "req-header", "req-body", "req-rechunk", "req-dechunk", "resp-header", "resp-body", "resp-rechunk", "set-response",
+            "stream-req", "stream-resp", "stream-both"]
+
+
 def gen_e2e(rng):
-    return {"k": "te", "str": False, "v": hx(b"chunked")}   # replaced below
+    n = rng.weighted([(5, 1), (3, 2), (1, 3)])
+    client = b"".join(gen_e2e_request(rng, i) for i in range(n))
+    return {"k": "e2e", "client": hx(client), "server": [gen_e2e_response(rng) for _ in range(n)],
+            "policy": [rng.choice(POLICIES) for _ in range(n)], "body": hx(gen_body(rng))}
 
 
 # =====================================================================================================================
@@ -828,12 +946,269 @@ def oracle(case, obs):
     return []
 
 
+def _snap_req(r):
+    return {"method": hx(r.data.method), "scheme": hx(r.data.scheme), "authority": hx(r.data.authority), "path": hx(r.data.path),
+            "version": hx(r.data.http_version), "headers": _fields(r.headers), "content": None if r.raw_content is None else hx(r.raw_content)}
+
+
+def _snap_resp(r):
+    return {"version": hx(r.data.http_version), "status": r.data.status_code, "reason": hx(r.data.reason), "headers": _fields(r.headers),
+            "content": None if r.raw_content is None else hx(r.raw_content)}
+
+
 def run_e2e(case):
-    return {}
+    pol = case["policy"]
+    newbody = unhx(case["body"])
+    addon_resp = set()
+
+    def policy(hook, drv):
+        flow = hook.args()[0] if hook.args() else None
+        i = drv.flow_ord(flow)
+        p = pol[i] if i < len(pol) else "pass"
+        if getattr(flow, "error", None):
+            return
+        if hook.name == "requestheaders":
+            if p in ("stream-req", "stream-both"):
+                flow.request.stream = True
+        elif hook.name == "request":
+            if p == "req-rechunk" and flow.request.http_version != "HTTP/1.1":
+                p = "req-body"
+            if p == "req-header":
+                flow.request.headers["X-Edit"] = "1"
+                flow.request.headers.pop("Accept", None)
+            elif p == "req-body":
+                flow.request.content = newbody
+            elif p == "req-rechunk":
+                flow.request.headers.pop("Content-Length", None)
+                flow.request.headers["Transfer-Encoding"] = "chunked"
+                flow.request.content = newbody
+            elif p == "req-dechunk":
+                flow.request.headers.pop("Transfer-Encoding", None)
+                flow.request.content = newbody
+            elif p == "set-response":
+                flow.response = mhttp.Response.make(200, b"" if flow.request.method.upper() == "HEAD" else newbody, {"X-Made": "1"})
+                addon_resp.add(i)
+        elif hook.name == "responseheaders":
+            if p in ("stream-resp", "stream-both") and i not in addon_resp:
+                flow.response.stream = True
+        elif hook.name == "response":
+            st = flow.response.status_code
+            if p in ("resp-body", "resp-rechunk") and (flow.request.method.upper() == "HEAD" or 100 <= st <= 199 or st in (204, 304)):
+                p = "resp-header"
+            if p == "resp-rechunk" and flow.response.http_version != "HTTP/1.1":
+                p = "resp-body"
+            if p == "resp-header":
+                flow.response.headers["X-Edit"] = "1"
+            elif p == "resp-body":
+                flow.response.content = newbody
+            elif p == "resp-rechunk":
+                flow.response.headers.pop("Content-Length", None)
+                flow.response.headers["Transfer-Encoding"] = "chunked"
+                flow.response.content = newbody
+
+    d = Driver(lambda ctx: http_layers.HttpLayer(ctx, HTTPMode.regular), options_overrides={"store_streamed_bodies": True}, policy=policy)
+    d.start()
+    d.data(0, unhx(case["client"]))
+    for r in case["server"]:
+        srv = [t[1] for t in d.trace if t[0] == "send" and t[1] != 0]
+        if not srv:
+            break
+        conn = srv[-1]
+        c = d.conns[conn]
+        if not (c.state & d.CS.CAN_READ) or d.crashed:
+            break
+        done_before = sum(1 for h in d.hook_names() if h in ("response", "error"))
+        d.data(conn, unhx(r["b"]))
+        unfinished = sum(1 for h in d.hook_names() if h in ("response", "error")) == done_before
+        if (r["close"] or unfinished) and (c.state & d.CS.CAN_READ) and not d.crashed:
+            d.close(conn)      # the server closes after its last byte (ends read-until-EOF bodies, aborts incomplete ones)
+    # attribute upstream sends to the flow of the most recent hook
+    up, cur, headless = [], None, 0
+    for t in d.trace:
+        if t[0] == "hook":
+            cur = t[2]
+        elif t[0] == "send" and t[1] != 0:
+            if up and up[-1][0] == cur and up[-1][1] == t[1]:
+                up[-1][2] += t[2]
+            else:
+                up.append([cur, t[1], t[2]])
+    flows = []
+    for i, f in enumerate(d.flows):
+        if not hasattr(f, "request"):
+            continue
+        flows.append({"req": _snap_req(f.request), "resp": _snap_resp(f.response) if f.response else None,
+                      "error": f.error.msg if f.error else None, "addon_resp": i in addon_resp})
+    return {"up": up, "down": hx(d.sent(0)), "flows": flows, "crashed": list(d.crashed) if d.crashed else None,
+            "hooks": d.hook_names(), "closed0": not bool(d.conns[0].state & d.CS.CAN_WRITE)}
+
+
+def _expected_target(q):
+    m, au = unhx(q["method"]), unhx(q["authority"])
+    if m.upper() == b"CONNECT":
+        return au
+    if au:
+        return unhx(q["scheme"]) + b"://" + au + unhx(q["path"])
+    return unhx(q["path"])
+
+
+def _diagnose(msg_headers, first_line_parts, default):
+    vals = b"".join(unhx(v) for _, v in msg_headers)
+    if any(b"\r\n" in unhx(v) for _, v in msg_headers):
+        return "obs-fold-forwarded"
+    if b"\r" in vals:
+        return "bare-cr-forwarded"
+    if b"\x00" in vals:
+        return "nul-forwarded"
+    return default
+
+
+def _client_ambiguous(client):
+    """index of the first client request whose framing is ambiguous / invalid for a lenient RFC recipient, and the count of
+    requests before it (None, n) when all n are fine"""
+    s, n = client, 0
+    while s:
+        while s[:2] == b"\r\n":
+            s = s[2:]
+        try:
+            (m, t, v), fs, rest = parse_head(LENIENT, s, lambda l: (b"", b"", l.split(b" ")[-1]) if l else None)
+        except RefErr as e:
+            return (n if e.kind == INVALID else None), n
+        # field names must be tokens: parse_fields ensured it; framing
+        bl = fields_body_length(True, v if is_http_version(v) else b"HTTP/1.1", fs)
+        if bl is None or (field_values(b"transfer-encoding", fs) and field_values(b"content-length", fs)):
+            return n, n
+        try:
+            _, _, s = read_body(LENIENT, bl, rest)
+        except RefErr as e:
+            return (n if e.kind == INVALID else None), n
+        n += 1
+    return None, n
 
 
 def oracle_e2e(case, obs):
-    return []
+    v = []
+    if obs["crashed"]:
+        import re as _re
+        sig = _re.sub(r"[^A-Za-z]+", "-", _re.sub(r"\(.*", "", obs["crashed"][1]))[:70].strip("-")
+        return [{"key": "layer-crash-" + obs["crashed"][0] + "-" + sig, "what": f"HttpLayer raised {obs['crashed']} for client bytes {case['client'][:200]}"}]
+    flows = obs["flows"]
+    # ---------- upstream: every forwarded request parses, under the reference parser, to exactly the recorded flow
+    forwarded = []
+    for fi, conn, data in obs["up"]:
+        data = unhx(data)
+        if fi is None or fi >= len(flows):
+            v.append({"key": "upstream-bytes-without-flow", "what": f"bytes sent upstream outside any flow: {data[:80]!r}"})
+            continue
+        q = flows[fi]["req"]
+        forwarded.append(fi)
+        first = [unhx(q["method"]), _expected_target(q), unhx(q["version"])]
+        dflt = "upstream"
+        if not first[0] or any(c not in TCHAR for c in first[0]):
+            dflt = "nontoken-method"
+        elif not all(is_vchar_obs(c) for c in first[1]) or not first[1]:
+            dflt = "ctl-in-target"
+        for o in (STRICT, LENIENT):
+            tag = "" if o is STRICT else "-lenient"
+            try:
+                qs = ref_parse_requests(o, data)
+            except RefErr as e:
+                if e.kind == INCOMPLETE and fi < len(case["policy"]) and case["policy"][fi] in ("stream-req", "stream-both"):
+                    continue      # a streamed request whose body the client never completed
+                if o is STRICT:
+                    k = _diagnose(q["headers"], first, dflt)
+                    v.append({"key": k + "-unparsable",
+                              "what": f"flow {fi}: reference parser ({e.kind}) cannot read what was sent upstream: {data[:120]!r}"})
+                continue
+            exp = {"method": first[0], "target": first[1], "version": first[2], "fields": [(unhx(n), unhx(x)) for n, x in q["headers"]],
+                   "body": unhx(q["content"] or ""), "trailers": []}
+            got = [dict(x, fields=[tuple(f) for f in x["fields"]]) for x in qs]
+            if got != [exp]:
+                k = _diagnose(q["headers"], first, dflt)
+                v.append({"key": k + "-desync" + tag,
+                          "what": f"flow {fi}: upstream bytes {data[:120]!r} read as {len(qs)} request(s) that differ from the recorded flow"})
+    for fi, f in enumerate(flows):
+        if fi not in forwarded and not f["error"] and not f["addon_resp"] and f["resp"] is not None:
+            v.append({"key": "response-without-forwarding", "what": f"flow {fi} has a response but no request bytes were sent upstream"})
+        if fi in forwarded and f["addon_resp"]:
+            v.append({"key": "forwarded-despite-addon-response", "what": f"flow {fi} answered by the addon was also sent upstream"})
+    # ---------- ambiguous client framing is never forwarded
+    amb, nfine = _client_ambiguous(unhx(case["client"]))
+    if amb is not None and len(set(forwarded)) > amb:
+        import re as _re
+        amb2, _ = _client_ambiguous(_re.sub(rb"[\x0b\x0c]+(?=\r?\n)|(?<=:)[ \t]*[\x0b\x0c]+", b"", unhx(case["client"])))
+        v.append({"key": "ambiguous-forwarded" if amb2 is not None and len(set(forwarded)) > amb2 else "vt-ff-stripped-from-framing-header", "what": f"client request #{amb} has ambiguous/invalid framing but {len(set(forwarded))} requests were forwarded; client bytes {case['client'][:240]}"})
+    # ---------- downstream: the client reads exactly the recorded responses, in the context of the request methods
+    s = unhx(obs["down"])
+    stop = False
+    for fi, f in enumerate(flows):
+        if stop or not s:
+            break
+        m = unhx(f["req"]["method"])
+        p = None
+        while s:
+            try:
+                p, s = ref_parse_response(STRICT, m, s)
+            except RefErr as e:
+                if e.kind == INCOMPLETE and f["error"]:
+                    p, stop = None, True      # a streamed response aborted by an upstream error; the connection is closed
+                    break
+                hs = f["resp"]["headers"] if f["resp"] else []
+                k = _diagnose(hs, None, "downstream")
+                prev = flows[fi - 1]["resp"] if fi > 0 else None
+                if s.startswith(b"0\r\n\r\n") and prev and (prev["status"] in (204, 304) or 100 <= prev["status"] <= 199):
+                    v.append({"key": "last-chunk-after-bodiless-response", "what": f"a {prev['status']} response with Transfer-Encoding: chunked is followed by a stray last-chunk on the client connection: {s[:60]!r}"})
+                    p, stop = None, True
+                    break
+                if k == "downstream":
+                    line = s.split(b"\r\n", 1)[0].split(b" ", 2)
+                    if len(line) >= 2 and not (len(line[1]) == 3 and line[1].isdigit()):
+                        k = "status-not-3-digits"
+                    elif len(line) == 3 and b"\r" in line[2]:
+                        k = "bare-cr-in-reason"
+                v.append({"key": k + "-unparsable",
+                          "what": f"flow {fi}: reference parser ({e.kind}) cannot read what was sent to the client: {s[:120]!r}"})
+                p, stop = None, True
+                break
+            if 100 <= p["status"] <= 199 and p["status"] != 101 and not (f["resp"] and f["resp"]["status"] == p["status"]):
+                p = None
+                continue      # interim response generated by the proxy (100 Continue)
+            break
+        if p is None:
+            break
+        if f["error"] or f["resp"] is None:
+            stop = True       # an error page generated by the proxy; the connection is closed after it
+            continue
+        r = f["resp"]
+        exp = {"version": unhx(r["version"]), "status": r["status"], "reason": unhx(r["reason"]), "fields": [(unhx(n), unhx(x)) for n, x in r["headers"]],
+               "body": unhx(r["content"] or "")}
+        got = {k: p[k] for k in exp}
+        got["fields"] = [tuple(x) for x in got["fields"]]
+        bodiless = m == b"HEAD" or 100 <= r["status"] <= 199 or r["status"] in (204, 304)
+        if bodiless:
+            exp["body"] = b""
+        if got != exp:
+            k = _diagnose(r["headers"], None, "downstream")
+            v.append({"key": k + "-desync", "what": f"flow {fi}: client-side bytes read as a response that differs from the recorded one: {got} vs {exp}"[:400]})
+            stop = True
+    if s and not stop and not v:
+        # bytes after the last recorded response: either a proxy error page for a request that never became a flow, or a desync
+        try:
+            p, rest = ref_parse_response(STRICT, b"GET", s)
+            ok = p["status"] >= 400 and not rest
+        except RefErr:
+            ok = False
+        if not ok:
+            last = flows[-1]["resp"] if flows and flows[-1]["resp"] else None
+            if s == b"0\r\n\r\n" and last and (last["status"] in (204, 304) or 100 <= last["status"] <= 199):
+                v.append({"key": "last-chunk-after-bodiless-response", "what": f"a {last['status']} response with Transfer-Encoding: chunked is followed by a stray last-chunk on the client connection: {unhx(obs['down'])[-80:]!r}"})
+            else:
+                v.append({"key": "downstream-extra-bytes", "what": f"bytes after the last response on the client connection: {s[:80]!r}"})
+    # one violation per key
+    seen, out = set(), []
+    for x in v:
+        if x["key"] not in seen:
+            seen.add(x["key"]); out.append(x)
+    return out
 
 
 def nontrivial(case, obs):
